@@ -54,14 +54,16 @@ func block2Lines(block interval.Interval[model.Addr]) []memLine {
 	end := (block.End() + bytesPerLine - 1) / bytesPerLine * bytesPerLine
 
 	lines := make([]memLine, 0, (end-begin)/bytesPerLine)
-	for i := begin; i < end; i += bytesPerLine {
+	// The rounded-up end is zero for a block reaching into the last window of
+	// the address space, so windows are counted by their distance from begin.
+	for i := begin; i-begin < end-begin; i += bytesPerLine {
 		b := i
 		if b < block.Begin() {
 			b = block.Begin()
 		}
 
 		e := i + bytesPerLine
-		if e > block.End() {
+		if e > block.End() || e < i {
 			e = block.End()
 		}
 
